@@ -239,6 +239,24 @@ func layoutCase(c *enum.Ctx, k kase) bool {
 			}
 			ct.Orient = -ct.Orient
 		}
+		// ... and when the GENE it sits on is turned round (an exported field of the location): the order of
+		// the UTRs follows the orientation the chain has now
+		if base != feat.NotOriented && g.Orient != feat.NotOriented {
+			c.Guard("UTR/panic", k, func() { ct.UTR5() }) // asked once more with everything as it was
+			g.Orient = -g.Orient
+			if c.Guard("UTR/panic", k, func() { u5, cds, u3 = ct.UTR5(), ct.CDS(), ct.UTR3() }) {
+				return true
+			}
+			first, last = u5, u3
+			if -base == feat.Reverse {
+				first, last = u3, u5
+			}
+			if first.Start() != 0 || first.End() != cds.Start() || last.Start() != cds.End() || last.End() != t.Len() ||
+				ct.UTR5start() != u5.Start() || ct.UTR5end() != u5.End() || ct.UTR3start() != u3.Start() || ct.UTR3end() != u3.End() {
+				fail("UTR-CDS-tiling/after-gene-reorientation", "the gene's orientation was changed to %v after a first query (base orientation now %v): UTR5=[%d,%d) CDS=[%d,%d) UTR3=[%d,%d) on a transcript of length %d", g.Orient, -base, u5.Start(), u5.End(), cds.Start(), cds.End(), u3.Start(), u3.End(), t.Len())
+			}
+			g.Orient = -g.Orient
+		}
 	}
 	return true
 }
